@@ -53,7 +53,19 @@ static void gen_common(Plan* p, Rng* r, int tier, long idx, int for_c07) {
         plan_set(p, "in_kind", rng_coin(r, 1, 2) ? GEN_LONGREP : GEN_MIXED);
         plan_set(p, "fin_in", (int64_t)(8 << 20)); plan_set(p, "fin_out", (int64_t)(1 << 20));
         plan_set(p, "stall_site", 1); plan_set(p, "stall_nth", rng_range(r, 3, 6)); plan_set(p, "stall_len", rng_range(r, 5000, 40000));
-    } else if (!for_c07 && rng_coin(r, 1, 5)) { plan_set(p, "stall_site", rng_range(r, 1, 2)); plan_set(p, "stall_nth", rng_range(r, 1, 12)); plan_set(p, "stall_len", rng_range(r, 300, 20000)); }   /* slow-node fault: a worker is descheduled right after taking a job / right after its serial step */
+    } else if (!for_c07 && (idx % 16) == 11) {
+        /* family "big overlap": the prefix (overlap) of a job is as large as the job itself, jobs have several chunks, a mid-frame flush
+         * de-aligns the round buffer: the producer may only recycle a region once the oldest running job is done with its PREFIX too */
+        int const w = (int)rng_range(r, 2, 3); int k2;
+        /* round buffer = (workers + 3) sections of 1 MiB: the input must go well beyond it for the producer to wrap onto live jobs */
+        plan_set(p, "nframes", 1); plan_set(p, "f0_workers", w); plan_set(p, "f0_size", (int64_t)(((size_t)(w + 5) << 20) + rng_below(r, 2u << 20))); plan_set(p, "in_size", plan_get(p, "f0_size", 0));
+        plan_set(p, "c.nbWorkers", w); plan_set(p, "c.enableLongDistanceMatching", 2); plan_set(p, "c.windowLog", rng_range(r, 21, 22)); plan_set(p, "c.overlapLog", rng_range(r, 8, 9)); plan_set(p, "c.jobSize", (int64_t)(1u << 20));
+        plan_set(p, "c.compressionLevel", rng_range(r, 1, 3)); plan_set(p, "c.strategy", 0); plan_set(p, "c.rsyncable", 0); plan_set(p, "c.targetCBlockSize", 0); plan_set(p, "c.format", 0); plan_set(p, "dict_kind", 0); plan_set(p, "c.checksumFlag", 1);
+        plan_set(p, "in_kind", rng_coin(r, 1, 2) ? GEN_LONGREP : GEN_MIXED);
+        for (k2 = 0; k2 < 2; k2++) plan_add(p, "cs", 4, (int64_t)(100000 + rng_below(r, 1800000)), (int64_t)(1 << 20), (int64_t)1 /* flush */, (int64_t)1);
+        plan_set(p, "fin_in", (int64_t)(16 << 20)); plan_set(p, "fin_out", (int64_t)(1 << 20));
+        plan_set(p, "stall_site", 3); plan_set(p, "stall_nth", rng_range(r, 3, 4 + w)); plan_set(p, "stall_len", rng_range(r, 20000, 80000));
+    } else if (!for_c07 && rng_coin(r, 1, 5)) { plan_set(p, "stall_site", rng_range(r, 1, 3)); plan_set(p, "stall_nth", rng_range(r, 1, 12)); plan_set(p, "stall_len", rng_range(r, 300, 20000)); }   /* slow-node fault: a worker is descheduled right after taking a job / right after its serial step */
     if (!for_c07 && rng_coin(r, 1, 7)) { plan_set(p, "abort_frame", (int64_t)rng_below(r, (uint64_t)nframes)); plan_set(p, "abort_after", rng_range(r, 1, 40)); plan_set(p, "abort_free", rng_coin(r, 1, 3)); }
     sim_sched_plan_defaults(p, r, faults);
     if (faults && rng_coin(r, 1, 2)) plan_set(p, "alloc_fail", rng_range(r, 1, 60));
